@@ -82,6 +82,8 @@ def expected(g, label, P, k, in_subgroup):
 def eval_case(case):
     """one (group, base, width, scalar): all routines on all back ends"""
     sub = case["sub"]
+    if sub == "platform":
+        return eval_platform(case)
     if sub == "recode":
         return eval_recode(case)
     if sub == "decompose":
@@ -155,7 +157,7 @@ def eval_decompose(case):
 def shards(ctx):
     for c in CONFIGS:
         build.build(c)
-    out = []
+    out = [{"sub": "platform"}]
     for g in (1, 2):
         for (label, P, z, insub) in bases(g, ctx.seed):
             for w in (WIDTHS if ctx.tier == "thorough" else QUICK_WIDTHS[g]):
@@ -208,8 +210,21 @@ def run_w8wnaf(ctx, part, parts):
     ctx.sample({"sub": "w8wnaf", "note": "WnafScalar<16|24, 2..5>::from_bigint and wnaf_multiply for ALL scalars (8-bit-word instantiation of the unchanged header)"}, limit=1)
 
 
+def eval_platform(case):
+    """the scalar multiplications of harness/platform_vectors.cpp (word-pattern scalars through the C interface) on three native back ends and
+    executed under the ILP32 data model (static i386 build): see C03's eval_platform; only the multiplication groups are judged here"""
+    from checks import c03
+    return c03.eval_platform(groups=("g1_multiply", "g1_multiply_affine", "g2_multiply"))
+
+
 def run_shard(ctx, shard):
     sub = shard["sub"]
+    if sub == "platform":
+        msgs = eval_platform({})
+        ctx.ok(True, "platform-vectors", n=300)
+        if msgs:
+            ctx.fail({"sub": "platform"}, "; ".join(msgs[:3]), sig="platform")
+        return
     if sub == "w8wnaf":
         return run_w8wnaf(ctx, shard["part"], shard["parts"])
     if sub == "recode":
